@@ -96,15 +96,20 @@ def is_eval_call(n, of=None):
             and not n.keywords and (of is None or (isinstance(n.func.value, ast.Name) and n.func.value.id == of)))
 
 
+# names of the fold's two locals (bound by fold_shape from the source: any identifiers are accepted, as long as the
+# accumulator is a plain local that is distinct from `self` and is the only thing stored into self._value at the end)
+ACC, WGT = "value", "weight"
+
+
 def weight_times(n, pred):
     """`weight * X` with pred(X)"""
     return (isinstance(n, ast.BinOp) and isinstance(n.op, ast.Mult) and isinstance(n.left, ast.Name)
-            and n.left.id == "weight" and pred(n.right))
+            and n.left.id == WGT and pred(n.right))
 
 
 def value_plus(s, pred):
     return (isinstance(s, ast.AugAssign) and isinstance(s.op, ast.Add) and isinstance(s.target, ast.Name)
-            and s.target.id == "value" and pred(s.value))
+            and s.target.id == ACC and pred(s.value))
 
 
 def is_leaf_assert(s):
@@ -115,15 +120,15 @@ def is_leaf_assert(s):
 def value_rebind(s, pred):
     """`value = value + X` with pred(X)"""
     return (isinstance(s, ast.Assign) and len(s.targets) == 1 and isinstance(s.targets[0], ast.Name)
-            and s.targets[0].id == "value" and isinstance(s.value, ast.BinOp) and isinstance(s.value.op, ast.Add)
-            and isinstance(s.value.left, ast.Name) and s.value.left.id == "value" and pred(s.value.right))
+            and s.targets[0].id == ACC and isinstance(s.value, ast.BinOp) and isinstance(s.value.op, ast.Add)
+            and isinstance(s.value.left, ast.Name) and s.value.left.id == ACC and pred(s.value.right))
 
 
 def empty_is_null(s):
     """`if len(self.decomposition_dict) == 0: value = np.zeros(Point.counter)` -- re-binds the accumulator local only"""
     return (isinstance(s, ast.If) and not s.orelse and ast.unparse(s.test) == "len(self.decomposition_dict) == 0"
             and len(s.body) == 1 and isinstance(s.body[0], ast.Assign) and len(s.body[0].targets) == 1
-            and isinstance(s.body[0].targets[0], ast.Name) and s.body[0].targets[0].id == "value"
+            and isinstance(s.body[0].targets[0], ast.Name) and s.body[0].targets[0].id == ACC
             and ast.unparse(s.body[0].value) == "np.zeros(Point.counter)")
 
 
@@ -134,17 +139,21 @@ def fold_shape(stmts, cls):
        <trailing> (points only, optional) ::= `if len(self.decomposition_dict) == 0: value = np.zeros(Point.counter)`"""
     if len(stmts) < 3:
         raise Bad("fold: expected `value = ..; for ..; self._value = value`")
+    global ACC, WGT
     init, loop, trailing, store = stmts[0], stmts[1], stmts[2:-1], stmts[-1]
     if not (isinstance(init, ast.Assign) and len(init.targets) == 1 and isinstance(init.targets[0], ast.Name)
-            and init.targets[0].id == "value"):
-        raise Bad("fold: line %d: expected `value = <init>`" % init.lineno)
+            and init.targets[0].id != "self"):
+        raise Bad("fold: line %d: expected `<accumulator> = <init>`" % init.lineno)
+    ACC = init.targets[0].id
     if not (isinstance(store, ast.Assign) and len(store.targets) == 1 and self_attr(store.targets[0], "_value")
-            and isinstance(store.value, ast.Name) and store.value.id == "value"):
-        raise Bad("fold: line %d: expected `self._value = value`" % store.lineno)
+            and isinstance(store.value, ast.Name) and store.value.id == ACC):
+        raise Bad("fold: line %d: expected `self._value = %s`" % (store.lineno, ACC))
     if not (isinstance(loop, ast.For) and not loop.orelse and ast.unparse(loop.iter) == "self.decomposition_dict.items()"
             and isinstance(loop.target, ast.Tuple) and len(loop.target.elts) == 2
-            and isinstance(loop.target.elts[1], ast.Name) and loop.target.elts[1].id == "weight"):
-        raise Bad("fold: line %d: expected `for <key>, weight in self.decomposition_dict.items():`" % loop.lineno)
+            and all(isinstance(e, ast.Name) for e in loop.target.elts)
+            and len({loop.target.elts[0].id, loop.target.elts[1].id, ACC, "self"}) == 4):
+        raise Bad("fold: line %d: expected `for <key>, <weight> in self.decomposition_dict.items():`" % loop.lineno)
+    WGT = loop.target.elts[1].id
     key = loop.target.elts[0].id
     body = loop.body
     term = lambda r: weight_times(r, lambda x: is_eval_call(x, key))
@@ -179,15 +188,23 @@ def fold_shape(stmts, cls):
                 raise Bad("fold: line %d: leaf-expression branch must be `value += weight * %s.eval()`" % (node.lineno, key))
             branches.append("BLeafExpr %s" % ("true" if n_assert >= 1 else "false"))
         elif test == "type(%s) == tuple" % key:
-            if not (len(stm) == 2 and ast.unparse(stm[0]) == "point1, point2 = %s" % key and value_plus(
+            pq = None
+            if (len(stm) == 2 and isinstance(stm[0], ast.Assign) and len(stm[0].targets) == 1
+                    and isinstance(stm[0].targets[0], ast.Tuple) and len(stm[0].targets[0].elts) == 2
+                    and all(isinstance(e, ast.Name) for e in stm[0].targets[0].elts)
+                    and isinstance(stm[0].value, ast.Name) and stm[0].value.id == key):
+                pq = [e.id for e in stm[0].targets[0].elts]
+                if len(set(pq + [key, ACC, WGT, "self"])) != 6:
+                    pq = None
+            if not (pq and value_plus(
                     stm[1], lambda r: weight_times(
                         r, lambda x: isinstance(x, ast.Call) and ast.unparse(x.func) == "np.dot" and len(x.args) == 2
-                        and is_eval_call(x.args[0], "point1") and is_eval_call(x.args[1], "point2")))):
+                        and is_eval_call(x.args[0], pq[0]) and is_eval_call(x.args[1], pq[1])))):
                 raise Bad("fold: line %d: inner-product branch must be `value += weight * np.dot(point1.eval(), "
                           "point2.eval())`" % node.lineno)
             branches.append("BInner %s" % ("true" if n_assert >= 2 else "false"))
         elif test == "%s == 1" % key:
-            if not (len(stm) == 1 and value_plus(stm[0], lambda r: isinstance(r, ast.Name) and r.id == "weight")):
+            if not (len(stm) == 1 and value_plus(stm[0], lambda r: isinstance(r, ast.Name) and r.id == WGT)):
                 raise Bad("fold: line %d: constant branch must be `value += weight`" % node.lineno)
             branches.append("BConst")
         else:
